@@ -146,8 +146,13 @@ def gen_case(rng, big=False):
         dead = dead[1:]
     pl = rng.choice([0, 0, 0.05, 0.2, 0.5, 1.0])
     dead_links = [[x, y, l] for (x, y) in allchips for l in range(6) if rng.random() < pl]
-    return {"vs": ids, "nets": nets, "unknown": unknown, "w": w, "h": h, "dead": [list(c) for c in dead],
+    case = {"vs": ids, "nets": nets, "unknown": unknown, "w": w, "h": h, "dead": [list(c) for c in dead],
             "dead_links": dead_links, "hilbert_bf": rng.random() < 0.6}
+    # vertices needing nothing ({} / an explicit 0 / only a resource the machine lacks) among the unit-demand ones
+    zk = rng.choice([0, 0, 1, 2, n // 3])
+    case["zero"] = [[v, rng.choice(["empty", "zero", "foreign"])] for v in rng.sample(ids, min(zk, n))]
+    from harness import c02_names
+    return c02_names.draw(rng, case)
 
 
 def w4(x):
@@ -158,22 +163,29 @@ def w4(x):
 
 
 def build(case):
+    """-> ..., nm: the Namer (vertex id -> the hashable object naming it, see c02_names)"""
     from rig.netlist import Net
-    from rig.place_and_route import Machine, Cores
+    from rig.place_and_route import Machine
     from rig.links import Links
+    from harness import c02_names
+    RES = c02_names.resources(case)
+    Cores = RES[0]
+    nm = c02_names.Namer(case)
     vs = case["vs"]
-    nets = [Net(s, list(k), wt) for s, k, wt in case["nets"]]
+    nets = [Net(nm.obj(s), [nm.obj(x) for x in k], wt) for s, k, wt in case["nets"]]
     dead = {tuple(c) for c in case["dead"]}
     working = [(x, y) for x in range(case["w"]) for y in range(case["h"]) if (x, y) not in dead]
     # the exactly-filling unit-demand problem: every vertex needs one core, the working chips offer
     # exactly len(vs) cores in total
-    n, W = len(vs), max(1, len(working))
+    zero = {v: kind for v, kind in case.get("zero", [])}
+    n, W = len(vs) - len(zero), max(1, len(working))
     base, extra = n // W, n % W
     exc = {c: {Cores: base + 1} for c in working[:extra]}
     machine = Machine(case["w"], case["h"], chip_resources={Cores: base}, chip_resource_exceptions=exc,
                       dead_chips=dead, dead_links={(x, y, Links(l)) for x, y, l in case["dead_links"]})
-    vr = collections.OrderedDict((v, {Cores: 1}) for v in vs)
-    return vr, nets, machine, working, base, extra
+    demand = {None: {Cores: 1}, "empty": {}, "zero": {Cores: 0}, "foreign": {RES[1]: 0}}
+    vr = collections.OrderedDict((nm.obj(v), dict(demand[zero.get(v)])) for v in vs)
+    return vr, nets, machine, working, base, extra, nm
 
 
 def lean_nets(case):
@@ -191,8 +203,20 @@ def chips(l):
 def run_case(case):
     """-> (requests, checks) ; checks = list of (kind, name, impl_value, request_index, placer)"""
     from rig.place_and_route.place import breadth_first, rcm, hilbert
-    vr, nets, machine, working, base, extra = build(case)
+    from harness import c02_names
+    vr, nets, machine, working, base, extra, nm = build(case)
     vs = case["vs"]
+
+    def D(l):
+        """vertex objects -> ids (anything that is not one of our vertices is shown by its type)"""
+        out = []
+        for v in l:
+            i = c02_names.index_of(v)
+            out.append("<%s>" % type(v).__name__ if i is None else i)
+        return out
+
+    def Dout(o):
+        return {"ok": D(o["ok"])} if "ok" in o else o
     reqs, checks = [], []
     gen = {"suite": "c02orders", "vs": vs, "nets": lean_nets(case), "pops": [], "iters": []}
     mach = {"suite": "c02orders", "w": case["w"], "h": case["h"], "dead": case["dead"],
@@ -219,42 +243,46 @@ def run_case(case):
         checks.append(("covers", name, order if pts is None else pts,
                        None if pts is None else ask(dict(mach, op="covers", order=pts)), placer))
 
-    closed = all(v in vr for s, k, _ in case["nets"] for v in [s] + list(k))
+    closed = all(v in set(vs) for s, k, _ in case["nets"] for v in [s] + list(k))
 
     # breadth_first_vertex_order
     with recording(breadth_first) as rec:
         out = attempt(lambda: list(breadth_first.breadth_first_vertex_order(vr, nets)))
-    compare("breadth_first_vertex_order", out, dict(gen, op="bfs", pops=rec.pops, iters=rec.iters))
+    out = Dout(out)
+    compare("breadth_first_vertex_order", out, dict(gen, op="bfs", pops=D(rec.pops), iters=[D(i) for i in rec.iters]))
     if "ok" in out:
         oracle_perm("breadth_first_vertex_order", out["ok"], vs, "breadth_first")
 
     # _get_vertices_neighbours
     vn = rcm._get_vertices_neighbours(nets)
     compare("_get_vertices_neighbours",
-            [[k, [[k2, w4(x)] for k2, x in inner.items()]] for k, inner in vn.items()], dict(gen, op="nbrs"))
+            [[D([k])[0], [[D([k2])[0], w4(x)] for k2, x in inner.items()]] for k, inner in vn.items()],
+            dict(gen, op="nbrs"))
     # _dfs from one vertex
     if vs or vn:
-        start = (vs + list(vn))[case["w"] * 7 % len(vs + list(vn))]
-        out = attempt(lambda: list(rcm._dfs(start, rcm._get_vertices_neighbours(nets))))
-        compare("_dfs", out, dict(gen, op="dfs", start=start))
+        cands = vs + D(list(vn))
+        start = cands[case["w"] * 7 % len(cands)]
+        out = attempt(lambda: list(rcm._dfs(nm.obj(start), rcm._get_vertices_neighbours(nets))))
+        compare("_dfs", Dout(out), dict(gen, op="dfs", start=start))
     # _get_connected_subgraphs
     with recording(rcm) as rec:
         out = attempt(lambda: rcm._get_connected_subgraphs(vr, rcm._get_vertices_neighbours(nets)))
     sgs = out.get("ok", [])
     if "ok" in out:
-        out = {"ok": [sorted(set.__iter__(s)) for s in sgs]}
-    compare("_get_connected_subgraphs", out, dict(gen, op="subgraphs", pops=rec.pops))
+        out = {"ok": [sorted(D(set.__iter__(s))) for s in sgs]}
+    compare("_get_connected_subgraphs", out, dict(gen, op="subgraphs", pops=D(rec.pops)))
     # _cuthill_mckee on every subgraph
     for sg in sgs[:4]:
-        members = sorted(set.__iter__(sg))
+        members = sorted(D(set.__iter__(sg)))
         with recording(rcm) as rec:
             sg2 = rcm.__dict__["set"](list(set.__iter__(sg)))     # same insertion order, this recorder
             out = attempt(lambda: list(rcm._cuthill_mckee(sg2, rcm._get_vertices_neighbours(nets))))
-        compare("_cuthill_mckee", out, dict(gen, op="cm", vs=members, iters=rec.iters))
+        compare("_cuthill_mckee", Dout(out), dict(gen, op="cm", vs=members, iters=[D(i) for i in rec.iters]))
     # rcm_vertex_order
     with recording(rcm) as rec:
         out = attempt(lambda: list(rcm.rcm_vertex_order(vr, nets)))
-    compare("rcm_vertex_order", out, dict(gen, op="rcm_v", pops=rec.pops, iters=rec.iters))
+    out = Dout(out)
+    compare("rcm_vertex_order", out, dict(gen, op="rcm_v", pops=D(rec.pops), iters=[D(i) for i in rec.iters]))
     if "ok" in out and closed:
         oracle_perm("rcm_vertex_order", out["ok"], vs, "rcm")
 
@@ -288,7 +316,8 @@ def run_case(case):
     # the wrappers on the exactly-filling unit-demand problem: the orders they hand on, and their outcome
     outcomes = {}
     c02 = {"suite": "c02", "w": case["w"], "h": case["h"], "res": [base], "dead": case["dead"],
-           "exc": [[list(c), [base + 1]] for c in working[:extra]], "vr": [[v, [1]] for v in vs], "cs": []}
+           "exc": [[list(c), [base + 1]] for c in working[:extra]],
+           "vr": [[v, [0 if v in {z for z, _ in case.get("zero", [])} else 1]] for v in vs], "cs": []}
     for name, mod, kw in (("breadth_first", breadth_first, {}),
                           ("hilbert", hilbert, {"breadth_first": case["hilbert_bf"]}),
                           ("rcm", rcm, {})):
@@ -307,14 +336,14 @@ def run_case(case):
             mod.sequential_place = real_sp
         outcomes[name] = res
         if "ok" in res:
-            ok_shape = all(isinstance(v, int) and isinstance(c, tuple) and len(c) == 2 and
+            ok_shape = all(c02_names.index_of(v) is not None and isinstance(c, tuple) and len(c) == 2 and
                            all(isinstance(i, int) and i >= 0 for i in c) for v, c in res["ok"].items())
-            p = sorted([v, list(c)] for v, c in res["ok"].items()) if ok_shape else None
+            p = sorted([c02_names.index_of(v), list(c)] for v, c in res["ok"].items()) if ok_shape else None
             res["valid_req"] = None if p is None else ask(dict(c02, op="valid", p=p))
         if len(cap) == 1:
             vo, co = cap[0]
             if vo is not None and (closed or name != "rcm"):
-                oracle_perm(name + ".place vertex_order", vo, vs, name)
+                oracle_perm(name + ".place vertex_order", D(vo), vs, name)
             if co is not None:
                 oracle_covers(name + ".place chip_order", co, name)
         else:
